@@ -155,7 +155,7 @@ func (s *scn) countForms(ctx string, ps []pat) {
 
 func joinPats(ps []pat) string { return strings.Join(patTexts(ps), ",") }
 
-func runScenario(run *evid.Run, src *source, k, nscen int) {
+func runScenario(run *evid.Run, src *source, k, nscen, nextra int) {
 	s := &scn{run: run, src: src, k: k}
 	s.r = rand.New(rand.NewSource(run.Seed*1000003 + int64(src.idx)*1009 + int64(k)))
 	defer func() {
@@ -165,7 +165,12 @@ func runScenario(run *evid.Run, src *source, k, nscen int) {
 	}()
 	s.env = sbx.New()
 	defer s.env.Cleanup()
-	s.plan = genPlan(s.r, src, k)
+	if k >= nscen {
+		s.plan = genRefPlan(s.r, src, k, nscen, nextra, run.Seed)
+		run.Count("reference_unlinked_scenarios_"+s.plan.RefHow, 1)
+	} else {
+		s.plan = genPlan(s.r, src, k)
+	}
 	s.srvRepo = fmt.Sprintf("s%d", k)
 	tail := genTail(run.Seed, src, k, nscen, s.plan)
 	if tail != nil {
@@ -173,6 +178,9 @@ func runScenario(run *evid.Run, src *source, k, nscen int) {
 		run.Count("tail_shapes_planned_"+tail.Shape, 1)
 	}
 	fp := genFault(run.Seed, src.idx, k, s.plan)
+	if s.plan.Kind == 8 {
+		fp = nil // the reference-store template runs against a well-behaved server
+	}
 	if fp == nil && tail != nil && tail.FaultTail {
 		// an otherwise fault-free scenario whose last command, fetch --refetch, meets a server that fails for one or
 		// two objects for good: the command fails, the objects that were in the store must still be there and valid
@@ -259,24 +267,43 @@ func (s *scn) runPlan() {
 		s.run.Count(fmt.Sprintf("fault_scenarios_maxretries_%d", s.fp.Retries), 1)
 	}
 	var refArgs []string
-	switch p.Store {
-	case "reference-full":
+	var lateSeed []string // RefHow ref-filled-later: the reference repository receives these LFS objects after the clone
+	altObjects := ""      // the reference repository's objects directory
+	switch {
+	case p.Store == "reference-full" && p.RefHow != "ref-filled-later":
 		refArgs = []string{"--reference", s.src.g.Dir}
 		s.refObjs = filepath.Join(s.src.g.GitDir, "lfs", "objects")
-	case "reference-subset":
+		altObjects = filepath.Join(s.src.g.GitDir, "objects")
+	case p.Store == "reference-full" || p.Store == "reference-subset":
 		refRepo := filepath.Join(s.env.Root, "refrepo.git")
 		s.mustSetup(s.exec("setup", s.env.Root, nil, "git", "clone", "-q", "--bare", s.src.bare, refRepo))
 		s.refObjs = filepath.Join(refRepo, "lfs", "objects")
-		os.MkdirAll(s.refObjs, 0o755)
+		altObjects = filepath.Join(refRepo, "objects")
+		var want []string
 		for _, oid := range s.src.oids {
-			if r.Intn(2) == 0 {
-				s.seedObject(s.refObjs, oid)
+			if p.Store == "reference-full" || r.Intn(2) == 0 {
+				want = append(want, oid)
 				s.seeded = append(s.seeded, "ref:"+oid[:8])
+			}
+		}
+		if p.RefHow == "ref-filled-later" {
+			lateSeed = want
+		} else {
+			os.MkdirAll(s.refObjs, 0o755)
+			for _, oid := range want {
+				s.seedObject(s.refObjs, oid)
 			}
 		}
 		refArgs = []string{"--reference", refRepo}
 	}
+	if p.RefHow == "alternates-after" {
+		refArgs = nil
+	}
 	args := append([]string{}, dashC...)
+	if p.RefHow == "nolfs-clone" {
+		// a clone made while Git LFS was not set up: no lfs filter runs (not kept for the later commands)
+		args = append(args, "-c", "filter.lfs.smudge=", "-c", "filter.lfs.process=", "-c", "filter.lfs.required=false")
+	}
 	args = append(args, "clone", "-q")
 	args = append(args, cloneCfg...)
 	if p.NoCheckout {
@@ -285,7 +312,7 @@ func (s *scn) runPlan() {
 	args = append(args, refArgs...)
 	args = append(args, "-b", p.Ref, s.src.bare, s.clone)
 	var cloneEnv []string
-	if p.Skip {
+	if p.Skip && p.RefHow != "nolfs-clone" {
 		cloneEnv = []string{"GIT_LFS_SKIP_SMUDGE=1"}
 	}
 	if !p.Skip && !p.NoCheckout {
@@ -315,6 +342,21 @@ func (s *scn) runPlan() {
 		kv := strings.SplitN(dashC[i], "=", 2)
 		s.mustSetup(s.git("setup", nil, "config", kv[0], kv[1]))
 	}
+	if p.RefHow == "alternates-after" {
+		alt := filepath.Join(s.gitDir, "objects", "info", "alternates")
+		f, err := os.OpenFile(alt, os.O_WRONLY|os.O_APPEND|os.O_CREATE, 0o644)
+		if err != nil {
+			panic(err)
+		}
+		fmt.Fprintf(f, "%s\n", altObjects)
+		f.Close()
+	}
+	if len(lateSeed) > 0 {
+		os.MkdirAll(s.refObjs, 0o755)
+		for _, oid := range lateSeed {
+			s.seedObject(s.refObjs, oid)
+		}
+	}
 	seed := func() {
 		if p.Store != "preseed-subset" {
 			return
@@ -333,12 +375,19 @@ func (s *scn) runPlan() {
 			return s.candidates(ptrsAt(s.env, s.model, "HEAD"), p.CfgInc, p.CfgExc, nil)
 		})
 		inj0 = s.injected()
+		var preStore0 map[string]bool
+		logSeq0 := 0
+		if s.refObjs != "" {
+			preStore0, logSeq0 = s.validStore(), s.lastSeq()
+		}
 		res = s.git("checkout-after-no-checkout", nil, "reset", "-q", "--hard")
 		if s.stop {
 			return
 		}
 		s.run.Count("scenario_ops_checkout-after-no-checkout", 1)
-		s.judge(&opCtx{kind: "checkout-after-no-checkout", inc: p.CfgInc, exc: p.CfgExc, pre: map[string]fstate{}, post: snapshot(s.clone), res: res, injected: s.injected() - inj0})
+		c0 := &opCtx{kind: "checkout-after-no-checkout", inc: p.CfgInc, exc: p.CfgExc, pre: map[string]fstate{}, post: snapshot(s.clone), res: res, injected: s.injected() - inj0, preStore: preStore0, logSeq: logSeq0}
+		s.judge(c0)
+		s.countFromReference(c0)
 		s.observeSmudge("checkout-after-no-checkout")
 		if !res.OK() && s.fs != nil {
 			return // index and HEAD may disagree now
@@ -354,6 +403,38 @@ func (s *scn) runPlan() {
 			return
 		}
 		s.runOp(i+1, o)
+	}
+}
+
+func (s *scn) lastSeq() int {
+	if l := s.src.srv.Log(); len(l) > 0 {
+		return l[len(l)-1].Seq
+	}
+	return 0
+}
+
+// countFromReference: after a successful command, selected objects that were not in the local store before, are
+// hash-valid in the reference store and in the local store now, and were not requested from the server meanwhile.
+func (s *scn) countFromReference(c *opCtx) {
+	if s.refObjs == "" || c.preStore == nil || !c.res.OK() {
+		return
+	}
+	got := map[string]bool{}
+	for _, rq := range s.src.srv.Log() {
+		if rq.Repo == s.srvRepo && rq.Kind == "storage-get" && rq.Seq > c.logSeq {
+			got[rq.Oid] = true
+		}
+	}
+	seen := map[string]bool{}
+	for _, pi := range ptrsAt(s.env, s.model, "HEAD") {
+		if seen[pi.Oid] || c.preStore[pi.Oid] || got[pi.Oid] || !s.refHas(pi.Oid) || !s.localValid(pi.Oid) {
+			continue
+		}
+		seen[pi.Oid] = true
+		s.run.Count("objects_linked_from_reference_store_"+c.kind, 1)
+		if st, ok := c.post[pi.Path]; ok && c.kind != "lfs-fetch" && classify(st, ok, pi) == "content" {
+			s.run.Count("files_materialised_from_reference_store_"+c.kind, 1)
+		}
 	}
 }
 
@@ -451,7 +532,7 @@ func (s *scn) runOp(step int, o opPlan) {
 		s.countForms("checkout-arg", o.Paths)
 		args = append([]string{"lfs", "checkout"}, patTexts(o.Paths)...)
 	}
-	if o.Shape != "" {
+	if o.Shape != "" || s.refObjs != "" {
 		c.preStore = s.validStore()
 	}
 	c.pre = snapshot(s.clone)
@@ -523,10 +604,8 @@ func (s *scn) runOp(step int, o opPlan) {
 		return nil // lfs checkout never downloads
 	})
 	inj0 := s.injected()
-	if o.Shape != "" {
-		if l := s.src.srv.Log(); len(l) > 0 {
-			c.logSeq = l[len(l)-1].Seq
-		}
+	if o.Shape != "" || s.refObjs != "" {
+		c.logSeq = s.lastSeq()
 	}
 	c.res = s.exec(o.Kind, cwd, envExtra, "git", args...)
 	if s.stop {
@@ -536,6 +615,7 @@ func (s *scn) runOp(step int, o opPlan) {
 	c.post = snapshot(s.clone)
 	s.run.Count("scenario_ops_"+o.Kind, 1)
 	s.judge(c)
+	s.countFromReference(c)
 	if o.Kind == "git-checkout" {
 		s.observeSmudge(o.Kind)
 		if !c.res.OK() && s.fs != nil {
@@ -673,6 +753,10 @@ func (s *scn) trigger(c *opCtx, pi pinfo) string {
 	t := c.kind
 	if c.shape != "" {
 		t += "-" + c.shape
+	}
+	if s.plan.RefHow != "" && c.preStore != nil && !c.preStore[pi.Oid] && s.refHas(pi.Oid) {
+		// the object was in the reference store only, and nothing in this clone had looked there yet
+		return t + "-reference-store-unlinked/" + s.plan.RefHow
 	}
 	if s.fs != nil && s.fs.injectedFor(pi.Oid) > 0 {
 		// the server misbehaved for this very object (now or in an earlier step)
@@ -1014,11 +1098,14 @@ func (s *scn) judge(c *opCtx) {
 				s.run.Count("lfs_checkout_object_local", 1)
 				expectContent(pi, false)
 			case s.refHas(pi.Oid):
+				// not local, but hash-valid in the store this clone borrows from (objects/info/alternates): the
+				// pinned tree links or copies it into the local store and writes the file
+				s.run.Count("paths_selected", 1)
 				s.run.Count("lfs_checkout_object_in_reference_only", 1)
-				if cls == "missing" {
-					lenient("missing", "pointer", "content")
-				} else {
-					lenient("pointer", "content")
+				expectContent(pi, false)
+				s.run.Count("object_presence_checks", 1)
+				if !s.localValid(pi.Oid) {
+					s.viol("object-missing-or-corrupt", s.trigger(c, pi), fmt.Sprintf("after successful %s: selected path %q references %s, which is hash-valid in the reference store %s, but lfs/objects has no hash-valid file for it", c.kind, pi.Path, pi.Oid, s.refObjs))
 				}
 			default:
 				s.run.Count("lfs_checkout_object_unavailable", 1)
